@@ -518,6 +518,19 @@ class Interp(object):
             return
         it = self.eval(s.iter, st)
         tvar = s.target.id if isinstance(s.target, ast.Name) else None
+        # a loop over the rows of a table parameter: the row symbol is named after the table, not after whatever the
+        # loop variable happens to be called (sidedness and the candidate-set special case then survive renamings)
+        root = None
+        ia = s.iter
+        if isinstance(ia, ast.Call) and isinstance(ia.func, ast.Attribute) and ia.func.attr == 'itertuples' and isinstance(ia.func.value, ast.Name):
+            root = ia.func.value.id
+        elif isinstance(ia, ast.Name):
+            root = ia.id
+        rowsym = None
+        if tvar is not None and root is not None and st.func is not None and root in st.func.params \
+                and isinstance(st.env.get(root), Sym) and isinstance(st.env[root].expr, ast.Name) and st.env[root].expr.id == root \
+                and ('table' in root or 'candset' in root):
+            rowsym = '%s__row' % root
         pieces = []      # (value bound to the loop variable, variable name of the repetition, base)
         if isinstance(it, ListV):
             for c in it.cells:
@@ -547,6 +560,8 @@ class Interp(object):
         for val, var, base in pieces:
             body = st.fork()
             before = {k: len(v.cells) for k, v in st.env.items() if isinstance(v, ListV)}
+            if rowsym is not None and isinstance(val, Sym) and isinstance(val.expr, ast.Name) and val.expr.id == tvar:
+                val, var = Sym(ast.Name(id=rowsym, ctx=ast.Load())), rowsym
             self._assign_loopvar(s.target, val, body)
             self._block(s.body, body, ret, path + (('for ' + U(s.target) + ' in ' + U(s.iter), True),))
             st.after_loop(body, before, var, base)
